@@ -14,6 +14,7 @@ PROP = dict(
           "Non-trivial = >=2 HTLC spends validated and "
           "(a pending remote commitment, a post-reload state, or a duplicate HTLC). Distinct = distinct (params, trace, phase)."),
     assumptions=[
+        'adversarial peer (fourth session): chansim.TamperedSigEpilogue - after a finished run on a non-taproot channel the peer is shown a commitment_signed with one htlc signature replaced by a well-formed wrong one and must refuse; the channel object is not used afterwards (lnd fails the link on such a message); taproot channels are skipped',
         "lnwallet job: witness types per channel type are chosen by the harness with the same case analysis as contractcourt's resolvers; contractcourt's OWN selection of witness types / input constructors / lock times is exercised by the contractcourt job TestVerifC05Resolvers (real ChannelArbitrator + resolvers on the real close summaries, every input handed to a capturing sweeper stub is assembled like sweep/txgenerator.go, signed by its own CraftInputScript and run through the interpreter against the actual previous outputs, incl. second-level outputs; see notes/C05b.md)",
         "contractcourt job: for channel types without zero-fee second-level transactions (legacy, tweakless, plain anchors) the REAL UtxoNursery runs behind IncubateOutputs on a real NurseryStore in the close's bolt file (rig ccnursery_test.go / c05_nursery_test.go): it publishes the timeout tx itself (validated against the commitment output; must not be published before its CLTV), gets lazily pumped confirmations, the chain is advanced to every height at which its store holds a class, and every input it hands to its sweeper (kid outputs read back from the store: HtlcOfferedTimeoutSecondLevel / HtlcAcceptedSuccessSecondLevel) is validated exactly like the resolvers' inputs against the actual output of the real second-level tx, incl. the one-block-early CSV control, plus: not handed over before the tip after which it can be mined (confirmation height + CSV, CLTV). The nursery is never handed a commitment output by the current resolvers (commitSweepResolver sweeps it), so none occurs. Witness types that share one witness generator (all second-level / to_local CSV spends produce <sig> <> <script>) are validity-neutral and not distinguished",
         "contractcourt job: received HTLCs are treated as forwards (preimages come from the witness beacon); resolver sweeps confirm regardless of height (maturity is checked by the interpreter with the sweeper's sequence/locktime convention plus one-block-early negative controls); the chain jumps between the heights at which resolvers or the nursery act",
